@@ -12,6 +12,7 @@ fn div_rem_in_place_small_quotient(
     decreases rhs@.len(), 0int
 @*/
 {
+    /*@ proof { reveal(div_post); } @*/
     let n = rhs.len();
     assert!(n >= 2 && lhs.len() >= n);
     let m = lhs.len() - n;
